@@ -182,7 +182,7 @@ let run_case (id : int) (line : string) : string =
         let size = n_of_int (int_of_string (kv s "S")) in
         let now = n_of_int (int_of_string (kv nw "N")) in
         let srw = n_of_hex (kv sr "R") in
-        let is_hdr x = String.length x > 2 && (String.sub x 0 2 = "M=" || String.sub x 0 2 = "Y=") in
+        let is_hdr x = String.length x > 2 && (String.sub x 0 2 = "M=" || String.sub x 0 2 = "Y=" || String.sub x 0 2 = "O=") in
         let tt = List.concat_map (fun x ->
           if String.length x > 2 && String.sub x 0 2 = "Y="
           then List.map parse_sty (List.filter (fun y -> y <> "") (String.split_on_char '~' (String.sub x 2 (String.length x - 2))))
